@@ -183,6 +183,7 @@ type recCell struct {
 	badAct                 int      // 1-based position of an activation name the library does not have (0: none)
 	nOut                   int      // number of outputs the node lists (0: all)
 	unit                   bool     // batch size 1 and input size 1 (gorgonia turns a one-element view into a scalar)
+	wrongLen               bool     // the activations list has one entry too few or too many: to be refused
 }
 
 func (cell recCell) batch() int64 {
@@ -252,7 +253,7 @@ func (c *Ctx) recWalk(oi *opInfo, name string, cell recCell, cov *pcover) (r *re
 		attrs = append(attrs, attr("linear_before_reset", map[string]pval{"I": {k: pInt, i: 1}}))
 	}
 	if cell.acts != nil {
-		var l []pval
+		l := []pval{}
 		for _, a := range cell.acts {
 			l = append(l, pval{k: pStr, s: a}) // the []byte of the name, kept as the name
 		}
@@ -623,9 +624,13 @@ func (c *Ctx) recWalk(oi *opInfo, name string, cell recCell, cov *pcover) (r *re
 		return r, nil, false
 	}
 	if nonNilKind(res[1].k) {
-		if !cell.seqLens && cell.badAct == 0 {
+		if !cell.seqLens && cell.badAct == 0 && !cell.wrongLen {
 			r.setBad("a valid request is refused with an error")
 		}
+		return r, nil, true
+	}
+	if cell.wrongLen && res[1].k == pNil {
+		r.setBad("an activations list of the wrong length is accepted")
 		return r, nil, true
 	}
 	if cell.badAct != 0 && res[1].k == pNil {
@@ -763,6 +768,10 @@ func (c *Ctx) recurrentTable(name string) (known bool, bad string, cells int) {
 		acts = append([]string{}, acts...)
 		acts[k-1] = "NoSuchActivation"
 		list = append(list, recCell{hasB: true, hasH: true, acts: acts, badAct: k})
+	}
+	for _, n := range []int{nActs - 1, nActs + 1} {
+		acts := []string{"Tanh", "Sigmoid", "Relu", "Tanh"}[:n]
+		list = append(list, recCell{hasB: true, hasH: true, acts: append([]string{}, acts...), wrongLen: true})
 	}
 	list = append(list, recCell{hasB: true, hasH: true, seqLens: true})
 	if name == "LSTM" {
